@@ -63,3 +63,8 @@ pub mod c15 {
     use super::*;
     include!("c15.rs");
 }
+pub mod c17 {
+    #[allow(unused_imports)]
+    use super::*;
+    include!("c17.rs");
+}
